@@ -30,3 +30,15 @@ def palette_tables(facts, rep):
         # a construct elsewhere in C13's colour rules (bright()) is not this property's business unless the tables were not reached
         if not any(o["rule"] == "colour-tables" and "into_ansi" in o["key"] for o in rep.obligations if hasattr(rep, "obligations")):
             rep.bad("colour-tables", "anstyle::color", "unrecognised-idiom", f"unrecognised-idiom: {e}")
+
+
+def colours_to_rgb(facts, rep):
+    """The RGB values a style sheet shows are anstyle-lossy's: `color_to_rgb` sends each kind of colour to its conversion, a palette
+    index 0..=15 and a 4-bit colour come from the configured palette, 16..=255 from the fixed table (C10's `dispatch` for
+    color_to_rgb and the lookup part of its `tables` rule, evaluated in the dependent check as well)."""
+    import core
+    from rules import C10
+    keep = ("rgb_from_index", "Palette::get", "xterm_to_rgb", "XTERM_COLORS", "color_to_rgb", "ansi_to_rgb")
+    sub = core.Filtered(rep, lambda rule, anchor, instance: any(x in str(anchor) + str(instance) for x in keep))
+    rep.guarded("tables", "anstyle_lossy", lambda: C10.rule_tables(facts, sub))
+    rep.guarded("dispatch", "anstyle_lossy", lambda: C10.rule_dispatch(facts, sub))
